@@ -1068,6 +1068,161 @@ impl crate::explore::CaseSpace for EventSeries {
     }
 }
 
+// ---------------------------------------------------------------------------------------
+// READs deferred during an unsolicited confirm wait: the last one is answered, alone
+// ---------------------------------------------------------------------------------------
+
+/// One or two READs (every ordered pair of a 5-request menu, the same request twice included)
+/// arrive while an unsolicited response awaits its confirm, optionally with a database update
+/// between them; the wait then ends by confirm or by time-out.  Exactly one series follows: it
+/// carries the last READ's sequence number and exactly that READ's selection -- every selected
+/// point once, ascending, with the value current when the wait ended.
+struct DeferredReads;
+
+const DR_MENU: usize = 5;
+
+impl DeferredReads {
+    fn request(k: usize) -> (Vec<u8>, Vec<(Kind, u32)>) {
+        let b = |i: u32| (Kind::Binary, i);
+        let a = |i: u32| (Kind::Analog, i);
+        match k {
+            0 => (app::hdr_all(60, 1), vec![b(0), b(1), b(2), b(3), b(9), a(0), a(1)]),
+            1 => (app::hdr_all(1, 2), vec![b(0), b(1), b(2), b(3), b(9)]),
+            2 => (app::hdr_range8(1, 2, 1, 2), vec![b(1), b(2)]),
+            3 => (app::hdr_all(30, 1), vec![a(0), a(1)]),
+            _ => {
+                let mut o = app::hdr_range8(30, 1, 1, 1);
+                o.extend(app::hdr_range8(1, 2, 0, 0));
+                (o, vec![a(1), b(0)])
+            }
+        }
+    }
+}
+
+impl crate::explore::CaseSpace for DeferredReads {
+    fn name(&self) -> String {
+        "reads-deferred-during-unsolicited-wait".into()
+    }
+    fn seeded(&self) -> bool {
+        true
+    }
+    fn total(&self) -> usize {
+        (DR_MENU + 1) * DR_MENU * 2 * 2
+    }
+    fn run(&self, index: usize, transcript: bool) -> RunResult {
+        let mut res = RunResult::default();
+        let first = index % (DR_MENU + 1); // DR_MENU = no first READ
+        let i = index / (DR_MENU + 1);
+        let second = i % DR_MENU;
+        let i = i / DR_MENU;
+        let update_between = i % 2 == 1;
+        let by_timeout = (i / 2) % 2 == 1;
+        res.obs = index as u64 + 515151;
+        let cfg = OCfg { unsolicited: true, max_unsol_retries: Some(0), confirm_timeout_ms: TO, unsol_retry_delay_ms: 60_000, event_buf: [10; 8], ..Default::default() };
+        let mut sim = OSim::new(&cfg, 1);
+        sim.db_quiet(|db| {
+            for i in 0..4u16 {
+                db.add(i, None, BinaryInputConfig::new(StaticBinaryInputVariation::Group1Var2, EventBinaryInputVariation::Group2Var1));
+                db.update(i, &common::binary(i % 2 == 0, 1), UpdateOptions::no_event());
+            }
+            for i in 0..2u16 {
+                db.add(i, None, AnalogInputConfig::new(StaticAnalogInputVariation::Group30Var1, EventAnalogInputVariation::Group32Var1, 0.0));
+                db.update(i, &common::analog(10.0 + i as f64, 1), UpdateOptions::no_event());
+            }
+            db.add(9, Some(EventClass::Class1), BinaryInputConfig::default());
+        });
+        common::null_unsol_handshake(&mut sim);
+        sim.send(&app::request(1, fc::ENABLE_UNSOLICITED, &app::class_headers(true, true, true, false)));
+        sim.take_out();
+        sim.db(|db| {
+            db.update(9, &common::binary(true, 2), UpdateOptions::detect_event());
+        });
+        let uns: Option<u8> = sim.take_out().iter().filter_map(|t| t.frag()).filter_map(app::Resp::parse).find(|r| r.uns()).map(|r| r.seq());
+        let Some(uns_seq) = uns else {
+            res.violation = Some(Violation::new("C11.D0", "setup", "no unsolicited response to wait for".to_string()));
+            return res;
+        };
+        let key = format!("first{}-second{second}", if first == DR_MENU { "-".to_string() } else { first.to_string() });
+        let mut values: BTreeMap<(Kind, u32), f64> = BTreeMap::new();
+        for i in 0..4u32 {
+            values.insert((Kind::Binary, i), (i % 2 == 0) as u8 as f64);
+        }
+        for i in 0..2u32 {
+            values.insert((Kind::Analog, i), 10.0 + i as f64);
+        }
+        // the point whose event is awaiting its confirm
+        values.insert((Kind::Binary, 9), 1.0);
+        let mut seq = 1u8;
+        let mut early: Vec<app::Resp> = Vec::new();
+        if first != DR_MENU {
+            seq += 1;
+            sim.send(&app::request(seq, fc::READ, &DeferredReads::request(first).0));
+            early.extend(sim.take_out().iter().filter_map(|t| t.frag()).filter_map(app::Resp::parse).filter(|r| !r.uns()));
+        }
+        if update_between {
+            sim.db(|db| {
+                db.update(1, &common::binary(true, 3), UpdateOptions::no_event());
+                db.update(1, &common::analog(77.0, 3), UpdateOptions::no_event());
+            });
+            values.insert((Kind::Binary, 1), 1.0);
+            values.insert((Kind::Analog, 1), 77.0);
+        }
+        seq += 1;
+        let (objs, want) = DeferredReads::request(second);
+        sim.send(&app::request(seq, fc::READ, &objs));
+        early.extend(sim.take_out().iter().filter_map(|t| t.frag()).filter_map(app::Resp::parse).filter(|r| !r.uns()));
+        res.transitions += 2;
+        if !early.is_empty() {
+            res.violation = Some(Violation::new("C11.D1", "read-answered-while-the-unsolicited-response-awaits-its-confirm", format!("{key}: {}", app::hex(&early[0].raw[..early[0].raw.len().min(16)]))));
+            return res;
+        }
+        if by_timeout {
+            sim.advance(TO);
+        } else {
+            sim.send(&app::confirm(uns_seq, true));
+        }
+        sim.advance(10);
+        let sol: Vec<app::Resp> = sim.take_out().iter().filter_map(|t| t.frag()).filter_map(app::Resp::parse).filter(|r| !r.uns()).collect();
+        if let Some(f) = sim.failure() {
+            res.violation = Some(Violation::new("C11.X0", f.clone(), f));
+            return res;
+        }
+        if transcript {
+            for r in &sol {
+                res.transcript.push(format!("<- {}", app::hex(&r.raw[..r.raw.len().min(60)])));
+            }
+        }
+        if sol.len() != 1 || sol[0].seq() != seq || !sol[0].fir() || !sol[0].fin() {
+            res.violation = Some(Violation::new(
+                "C11.D2",
+                "deferred-read-not-answered-exactly-once",
+                format!("{key}: {} solicited fragments after the wait ended (expected one FIR|FIN response with sequence {seq}): {:?}", sol.len(), sol.iter().map(|r| app::hex(&r.raw[..4])).collect::<Vec<_>>()),
+            ));
+            return res;
+        }
+        let ms = match sol[0].headers().map_err(|e| format!("{e:?}")).and_then(|h| decode_measurements(&h)) {
+            Ok(m) => m,
+            Err(e) => {
+                res.violation = Some(Violation::new("C11.G6", "objects-not-decodable", e));
+                return res;
+            }
+        };
+        let got: Vec<((Kind, u32), f64)> = ms.iter().map(|m| ((m.kind, m.index), m.val.as_f64().unwrap_or(f64::NAN))).collect();
+        let expect: Vec<((Kind, u32), f64)> = want.iter().map(|k| (*k, values[k])).collect();
+        if got != expect {
+            res.violation = Some(Violation::new(
+                "C11.D3",
+                "deferred-read-answer-is-not-its-selection",
+                format!("{key} (update between: {update_between}, ended by {}): answered {got:?}, the last READ selects {expect:?}", if by_timeout { "time-out" } else { "confirm" }),
+            ));
+            return res;
+        }
+        res.nontrivial = true;
+        res.model_states.push((first * 8 + second) as u64);
+        res
+    }
+}
+
 pub fn replay(scenario: &str, path: &[usize]) -> Option<RunResult> {
     {
         use crate::explore::CaseSpace;
@@ -1076,6 +1231,9 @@ pub fn replay(scenario: &str, path: &[usize]) -> Option<RunResult> {
         }
         if scenario == EventSeries.name() {
             return Some(EventSeries.run(path[0], true));
+        }
+        if scenario == DeferredReads.name() {
+            return Some(DeferredReads.run(path[0], true));
         }
     }
     scenarios("thorough").into_iter().find(|s| s.name == scenario).map(|s| s.run(path, true))
@@ -1088,9 +1246,10 @@ pub fn check(tier: &str) -> i32 {
     }
     c.cases(&AttrReads);
     c.cases(&EventSeries);
+    c.cases(&DeferredReads);
     c.finish(
         "model_checking",
-        "every event history over the listed alphabet (8-10 READ requests per database: class 0, class 1230, all objects, 8/16-bit ranges inside / overlapping / outside the index set, a specific variation, several headers; right / wrong / late solicited confirm, confirm timeout, another request, reconnect, update of a selected and of another point) up to the listed depth on five databases (packed binaries; eight types with sparse indices; 100 analogs; binaries with mixed flags; 60 analogs followed by binaries whose *flags* are updated while the series is under way) and three transmit buffer sizes; a mirrored database is snapshotted when each READ is delivered and the concatenated series is compared with it; plus timing histories (three fifths of the confirm timeout pass; the wait for a confirm ends at its deadline whatever else arrived meanwhile), and a product of waiting event counts {1,17,18,19,30,37,60} x transmit sizes {249,251,300,2048} x static tails {none, g1v0, class 0, g30 range} read together with classes 1/2/3 (every waiting event exactly once and in order, before any static object); non-trivial = a series completed (and spanned several fragments for the small buffers); distinct = distinct observation trace",
+        "every event history over the listed alphabet (8-10 READ requests per database: class 0, class 1230, all objects, 8/16-bit ranges inside / overlapping / outside the index set, a specific variation, several headers; right / wrong / late solicited confirm, confirm timeout, another request, reconnect, update of a selected and of another point) up to the listed depth on five databases (packed binaries; eight types with sparse indices; 100 analogs; binaries with mixed flags; 60 analogs followed by binaries whose *flags* are updated while the series is under way) and three transmit buffer sizes; a mirrored database is snapshotted when each READ is delivered and the concatenated series is compared with it; plus timing histories (three fifths of the confirm timeout pass; the wait for a confirm ends at its deadline whatever else arrived meanwhile), and a product of waiting event counts {1,17,18,19,30,37,60} x transmit sizes {249,251,300,2048} x static tails {none, g1v0, class 0, g30 range} read together with classes 1/2/3 (every waiting event exactly once and in order, before any static object); and one or two READs (every ordered pair of 5 requests) deferred during an unsolicited confirm wait that ends by confirm or time-out, with and without an update between them: one answer, with the last READ's sequence number and exactly its selection at current values; non-trivial = a series completed (and spanned several fragments for the small buffers); distinct = distinct observation trace",
         &[
             "updates are placed at quiescent points between fragments (H6 lock-point placements are not built)",
             "values are small integers representable in every variation used (variation-specific carrying is C10's subject)",
